@@ -377,6 +377,32 @@ def r4(F, R):
         return
     pbb, pt = pushes[0]
     qbb, qt = pops[0]
+    # the stack of pending levels belongs to one draw: a fresh local, or a field that is emptied before the step loop on every path
+    from . import eff as E_
+    spl = E_.place_of(F, b, b.value(pt["args"][0]))
+    skey = b.path + ":stack-per-draw"
+    ssite = "%s @%s" % (b.path, loc(pt["span"]))
+    sv = b.value(pt["args"][0])
+    while sv[0] in ("ref", "deref"):
+        sv = sv[1]
+    if sv[0] == "call" and strip_generics(sv[1]).endswith(("Vec::with_capacity", "Vec::new")):
+        R.ok("C18-R4", skey, ssite, "the stack is a local of the kernel, created empty for every draw")
+    elif spl is None:
+        R.bad("C18-R4", skey, ssite, "cannot tell where the stack of pending step-size levels lives")
+    elif spl[0][0] == "local" and not spl[1]:
+        ds = b.defs().get(spl[0][1], [])
+        fresh = [d for d in ds if d[0] == "call" and strip_generics(d[3]["callee"].get("path", "")).endswith(("Vec::with_capacity", "Vec::new"))]
+        if fresh and len(fresh) == len(ds):
+            R.ok("C18-R4", skey, ssite, "the stack is a local of the kernel, created empty for every draw")
+        else:
+            R.bad("C18-R4", skey, ssite, "the stack local is not created empty in the kernel")
+    else:
+        clears = [(bb, t) for bb, t in b.calls() if strip_generics(t["callee"].get("path", "")).endswith("Vec::clear") and E_.place_of(F, b, b.value(t["args"][0])) == spl]
+        if clears and any(b.dominates(cb_, pbb) and b.dominates(cb_, qbb) and not any(cb_ in body_ for body_ in b.natural_loops().values()) for cb_, _t in clears):
+            R.ok("C18-R4", skey, ssite, "the stack lives in %s and is cleared before the step loop of every draw" % (spl,))
+        else:
+            R.bad("C18-R4", skey, ssite, "the stack of pending levels lives in %s and is not emptied at the start of a draw: a draw that gave up after the maximal number "
+                  "of halvings leaves its levels to the next draw (steps at multiples of the step size, or no retry at all)" % ".".join(spl[1]))
     fl = [i for i, l in enumerate(b.locals) if l.get("name") == "factor"]
     rl = [i for i, l in enumerate(b.locals) if l.get("name") == "remaining"]
     # factor writers by value shape (no reliance on the name: the f64 local multiplied by 0.5 / 2.0)
@@ -468,11 +494,50 @@ def r4(F, R):
     R.floor("C18-R4", 5)
 
 
+def r5(F, R):
+    """The draw at which the trajectory kind switches is the configured fraction of the warm-up."""
+    R.rule("C18-R5", "in every Settings::new_chain that builds an MclmcChain, the constructor argument stored in MclmcChain.switch_draw is computed from the "
+                     "settings fields trajectory_switch_fraction and num_tune and from no other setting (helpers inlined): the Euclidean -> microcanonical switch "
+                     "happens at the configured draw")
+    ctor = F.inherent_methods("MclmcChain", "new")
+    if not ctor:
+        R.missing("C18-R5", "MclmcChain::new")
+        return
+    cb = ctor[0]
+    idx = None
+    for bi, blk in enumerate(cb.blocks):
+        for st in blk["stmts"]:
+            if st["k"] == "assign" and st["rv"]["k"] == "agg" and st["rv"].get("ak") == "adt" and "switch_draw" in (st["rv"].get("fields") or []):
+                v = cb.value(st["rv"]["ops"][st["rv"]["fields"].index("switch_draw")])
+                if v[0] == "arg":
+                    idx = v[1]
+    if idx is None:
+        R.missing("C18-R5", "constructor parameter stored in MclmcChain.switch_draw")
+        return
+    n = 0
+    for b in F.trait_method_impls("sampler::Settings", "new_chain"):
+        for bb, t in b.calls_to(lambda c: path_ends(c["path"], "MclmcChain::new")):
+            if idx - 1 >= len(t["args"]):
+                continue
+            n += 1
+            sl = b.slice([t["args"][idx - 1]], control=True, start_bb=None)
+            fields = {f for f in sl["fields"] if not str(f).isdigit()}
+            key = "%s:switch_draw" % b.path
+            site = "%s @%s" % (b.path, loc(t["span"]))
+            if {"trajectory_switch_fraction", "num_tune"} <= fields and not (fields - {"trajectory_switch_fraction", "num_tune"}):
+                R.ok("C18-R5", key, site, "switch_draw = f(trajectory_switch_fraction, num_tune)")
+            else:
+                R.bad("C18-R5", key, site, "switch_draw is computed from %s, expected trajectory_switch_fraction and num_tune only" % sorted(fields))
+    R.floor("C18-R5", 3)
+
+
+
 def run(F, R, config=None):
     r1(F, R)
     r2(F, R)
     r3(F, R)
     r4(F, R)
+    r5(F, R)
     R.assume("the ESH closed form and its kinetic-energy change are numerical identities and not decided")
     R.assume("Math::array_normalize of a user-supplied Math divides by the Euclidean norm")
 
